@@ -4,7 +4,9 @@ import (
 	"bytes"
 	"fmt"
 	"math/rand"
+	"sort"
 	"strings"
+	"sync"
 	"time"
 
 	"github.com/ClickHouse/ch-go/proto"
@@ -434,6 +436,21 @@ func c18Inferable(r *core.Run, rng *rand.Rand) {
 		{"AutoResult(Array(LowCardinality))", []string{"Array(LowCardinality(String))", "Array(LowCardinality(String))"}, func() proto.ColResult { return &proto.ColAuto{} }},
 		{"AutoResult(Array)", []string{fmt.Sprintf("Array(DateTime64(%d))", p1), fmt.Sprintf("Array(DateTime64(%d))", p2)}, func() proto.ColResult { return &proto.ColAuto{} }},
 	}
+	// an AutoResult target that meets successive blocks whose types share only the outermost
+	// base (Nullable(Int32) -> Nullable(UInt32), FixedString(8) -> FixedString(16), Array(String)
+	// -> Array(Int32), Decimal(9, 2) -> Decimal(18, 2), ...): it must re-infer, never keep a column
+	// of the previous width
+	if groups := c18SameBaseGroups(); len(groups) > 0 {
+		for k := 0; k < 6; k++ {
+			g := groups[rng.Intn(len(groups))]
+			n := 2 + rng.Intn(3)
+			var ts []string
+			for i := 0; i < n; i++ {
+				ts = append(ts, g[rng.Intn(len(g))])
+			}
+			cases = append(cases, tc{"AutoResult(same base: " + c18Base(ts[0]) + ")", ts, func() proto.ColResult { return &proto.ColAuto{} }})
+		}
+	}
 	c := cases[rng.Intn(len(cases))]
 	target := c.target()
 	res := proto.Results{{Name: "", Data: target}}
@@ -482,6 +499,60 @@ func c18Inferable(r *core.Run, rng *rand.Rand) {
 			return
 		}
 	}
+}
+
+func c18Base(ts string) string {
+	if i := strings.IndexByte(ts, '('); i >= 0 {
+		return ts[:i]
+	}
+	return ts
+}
+
+var (
+	c18GroupsOnce sync.Once
+	c18Groups     [][]string
+)
+
+// c18SameBaseGroups: the inferable types of the pool, grouped by outermost base (groups of >= 2).
+func c18SameBaseGroups() [][]string {
+	c18GroupsOnce.Do(func() {
+		byBase := map[string][]string{}
+		seen := map[string]bool{}
+		add := func(ts string) {
+			if seen[ts] {
+				return
+			}
+			seen[ts] = true
+			if _, err := ref.ParseType(ts); err != nil {
+				return
+			}
+			ok := false
+			_ = core.Recover(func() { ok = new(proto.ColAuto).Infer(proto.ColumnType(ts)) == nil })
+			if ok {
+				byBase[c18Base(ts)] = append(byBase[c18Base(ts)], ts)
+			}
+		}
+		for _, e := range c18Pool() {
+			add(e.Type)
+		}
+		for _, ts := range []string{"Nullable(Int32)", "Nullable(UInt32)", "Nullable(Int64)", "Nullable(String)", "FixedString(8)", "FixedString(16)", "FixedString(3)",
+			"Decimal(9, 2)", "Decimal(18, 2)", "Decimal(38, 4)", "Decimal(76, 0)", "Array(String)", "Array(Int32)", "Array(UInt8)", "Array(Nullable(String))", "Array(Array(Int64))",
+			"Map(String, String)", "Map(String, UInt64)", "Map(Int32, String)", "Tuple(String, Int64)", "Tuple(Int64, String)", "Tuple(UInt8, UInt8, UInt8)",
+			"LowCardinality(String)", "LowCardinality(FixedString(4))", "DateTime64(3)", "DateTime64(9, 'UTC')", "Decimal32(2)", "Decimal32(5)", "Decimal64(2)", "Decimal64(9)"} {
+			add(ts)
+		}
+		var bases []string
+		for b, l := range byBase {
+			if len(l) >= 2 {
+				bases = append(bases, b)
+			}
+		}
+		sort.Strings(bases)
+		for _, b := range bases {
+			c18Groups = append(c18Groups, byBase[b])
+		}
+	})
+	return c18Groups
 }
 
 func readAllSafe(c val.LibCol) (out []ref.Val) {
